@@ -27,3 +27,33 @@ package rvole_bbot
 //@     invariant forall k int :: 0 <= k && k < $i ==> drawn(box(aHat[k]), sa[k]) && streamOf(sa[k]) == streamOf(old(shk(alice.prng))) && rpos(old(shk(alice.prng))) <= rpos(sa[k]) && rpos(sa[k]) <= rpos(shk(alice.prng))
 //@     invariant forall k, m int :: 0 <= k && k < m && m < $i ==> rpos(sa[k]) <= rpos(sa[m])
 //@   ghostset before "aHat[i], err = alice.suite.field.Random(alice.prng)": sa[$i] = shk(alice.prng)
+
+// ---------------------------------------------------------------- the check coefficients bind ALL of aTilde (C09)
+// absRow(t, row, k): transcript state after absorbing the first k entries of a row under aTildeLabel;
+// absAll(t, rows, j): after absorbing the first j rows IN FULL (payload and check columns alike).
+//@ ghost func absRow(t V, row []V, k int) V
+//@ ghost func absAll(t V, rows [][]V, j int) V
+//@ theory atilde
+//@ axiom AbsRow0: forall t V, row []V :: absRow(t, row, 0) == t
+//@ axiom AbsRowS: forall t V, row []V, k Int :: k > 0 ==> absRow(t, row, k) == tapp(absRow(t, row, k-1), aTildeLabel, list(as(row[k-1], base.BytesLike).Bytes()))
+//@ axiom AbsAll0: forall t V, rows [][]V :: absAll(t, rows, 0) == t
+//@ axiom AbsAllS: forall t V, rows [][]V, j Int :: j > 0 ==> absAll(t, rows, j) == absRow(absAll(t, rows, j-1), rows[j-1], len(rows[j-1]))
+//@ end
+
+// Both parties derive theta from a transcript that has absorbed EVERY entry of EVERY row of aTilde (l payload columns
+// and rho check columns), in order, before anything is extracted: altering any entry changes the coefficients.
+//@ func (*participant).roTheta
+//@   property C09
+//@   uses atilde
+//@   ghostvar J int
+//@   let tr = p.ctx.Transcript()
+//@   assert before "theta = make([][]S, p.suite.l)": tsc(tr) == absAll(old(tsc(tr)), aTilde, len(aTilde))
+//@   loop range(aTilde)
+//@     invariant tsc(tr) == absAll(old(tsc(tr)), aTilde, $i) && p.ctx == old(p.ctx)
+//@   loop range(aTildeJ)
+//@     invariant tsc(tr) == absRow(absAll(old(tsc(tr)), aTilde, J), aTildeJ, $i) && p.ctx == old(p.ctx) && 0 <= J && J < len(aTilde) && aTildeJ == aTilde[J]
+//@   loop range(theta)
+//@     invariant true
+//@   loop range(theta[i])
+//@     invariant true
+//@   ghostset before "for _, aj := range aTildeJ {": J = $i
